@@ -154,7 +154,7 @@ func shortFuncName(fn *ssa.Function) string {
 }
 
 func (ex *Exec) inlineCall(fr *Frame, fn *ssa.Function, free []Val, args []Val, st *State, reach Term, pos token.Pos) Val {
-	sub := ex.newFrame(fn, fr, fr.prefix+"inl:"+shortFuncName(fn)+"/")
+	sub := ex.newFrameAt(fn, fr, fr.prefix+"inl:"+shortFuncName(fn)+"/", pos)
 	for i, p := range fn.Params {
 		sub.regs[p] = args[i]
 		sub.params[p.Name()] = args[i]
